@@ -226,7 +226,7 @@ def wave_range(bins, cenwave, npix, mode='round'):
             'mode={0} is invalid, must be "round", "min", "max", '
             'or "none".'.format(mode))
 
-    if not isinstance(npix, int):
+    if not isinstance(npix, int) or npix < 0:
         raise exceptions.SynphotError('npix={0} is invalid.'.format(npix))
 
     # Bin values must be in ascending order.
@@ -289,71 +289,56 @@ def wave_range(bins, cenwave, npix, mode='round'):
             # trigger an exception
             wave2 = bins[-1] + (bins[-1] - bins[-2:].mean())
 
-    elif mode == 'min':
-        # Lower end of wavelength range
-        if frac1 <= 0.5 and int1 < bins.shape[0] - 1:
-            # not at the lowest possible edge and pixel i included
-            wave1 = bins[int1:int1 + 2].mean()
-        elif frac1 > 0.5 and int1 < bins.shape[0] - 2:
-            # not at the lowest possible edge and pixel i not included
-            wave1 = bins[int1 + 1:int1 + 3].mean()
-        elif frac1 == -0.5:
-            # at the lowest possible edge
-            wave1 = bins[0] - (bins[0:2].mean() - bins[0])
-        else:  # pragma: no cover
-            raise exceptions.SynphotError(
-                'mode={0} gets unexpected frac1={1}, int1={2}'.format(
-                    mode, frac1, int1))
+    else:
+        # Range limits may fall within the outer half of the first or the
+        # last pixel, where there is no neighboring bin center to interpolate
+        # to. Pad the bins with one virtual center beyond each end, mirroring
+        # the outermost spacing, so that those limits are handled like any
+        # other. Indices below refer to the padded array (shifted by one).
+        bins = np.concatenate(([2.0 * bins[0] - bins[1]], bins,
+                               [2.0 * bins[-1] - bins[-2]]))
+        frac1, int1 = np.modf(frac_ind1 + 1)
+        frac2, int2 = np.modf(frac_ind2 + 1)
+        int1 = int(int1)
+        int2 = int(int2)
 
-        # Upper end of wavelength range
-        if frac2 >= 0.5 and int2 < bins.shape[0] - 1:
-            # not out at the end and pixel i included
-            wave2 = bins[int2:int2 + 2].mean()
-        elif frac2 < 0.5 and int2 < bins.shape[0]:
-            # not out at end and pixel i not included
-            wave2 = bins[int2 - 1:int2 + 1].mean()
-        elif frac2 == 0.5 and int2 == bins.shape[0] - 1:
-            # at the very end
-            wave2 = bins[-1] + (bins[-1] - bins[-2:].mean())
-        else:  # pragma: no cover
-            raise exceptions.SynphotError(
-                'mode={0} gets unexpected frac2={1}, int2={2}'.format(
-                    mode, frac2, int2))
+        if mode == 'min':
+            # Lower end of wavelength range
+            if frac1 <= 0.5:
+                # pixel i included
+                wave1 = bins[int1:int1 + 2].mean()
+            else:
+                # pixel i not included
+                wave1 = bins[int1 + 1:int1 + 3].mean()
 
-    elif mode == 'max':
-        # Lower end of wavelength range
-        if frac1 < 0.5 and int1 < bins.shape[0]:
-            # not at the lowest possible edge and pixel i included
-            wave1 = bins[int1 - 1:int1 + 1].mean()
-        elif frac1 >= 0.5 and int1 < bins.shape[0] - 1:
-            # not at the lowest possible edge and pixel i not included
-            wave1 = bins[int1:int1 + 2].mean()
-        elif frac1 == -0.5:
-            # at the lowest possible edge
-            wave1 = bins[0] - (bins[0:2].mean() - bins[0])
-        else:  # pragma: no cover
-            raise exceptions.SynphotError(
-                'mode={0} gets unexpected frac1={1}, int1={2}'.format(
-                    mode, frac1, int1))
+            # Upper end of wavelength range
+            if frac2 >= 0.5:
+                # pixel i included
+                wave2 = bins[int2:int2 + 2].mean()
+            else:
+                # pixel i not included
+                wave2 = bins[int2 - 1:int2 + 1].mean()
 
-        # Upper end of wavelength range
-        if frac2 > 0.5 and int2 < bins.shape[0] - 2:
-            # not out at the end and pixel i included
-            wave2 = bins[int2 + 1:int2 + 3].mean()
-        elif frac2 <= 0.5 and int2 < bins.shape[0] - 1:
-            # not out at end and pixel i not included
-            wave2 = bins[int2:int2 + 2].mean()
-        elif frac2 == 0.5 and int2 == bins.shape[0] - 1:
-            # at the very end
-            wave2 = bins[-1] + (bins[-1] - bins[-2:].mean())
-        else:  # pragma: no cover
-            raise exceptions.SynphotError(
-                'mode={0} gets unexpected frac2={1}, int2={2}'.format(
-                    mode, frac2, int2))
+        elif mode == 'max':
+            # Lower end of wavelength range
+            if frac1 < 0.5:
+                # pixel i included
+                wave1 = bins[int1 - 1:int1 + 1].mean()
+            else:
+                # pixel i not included
+                wave1 = bins[int1:int1 + 2].mean()
 
-    else:  # mode == 'none'
-        wave1 = bins[int1] + frac1 * (bins[int1 + 1] - bins[int1])
-        wave2 = bins[int2] + frac2 * (bins[int2 + 1] - bins[int2])
+            # Upper end of wavelength range
+            if frac2 > 0.5:
+                # pixel i included
+                wave2 = bins[int2 + 1:int2 + 3].mean()
+            else:
+                # pixel i not included
+                wave2 = bins[int2:int2 + 2].mean()
+
+        else:  # mode == 'none'
+            wave1 = bins[int1] + frac1 * (bins[int1 + 1] - bins[int1])
+            wave2 = bins[int2] + frac2 * (bins[int2 + 1] - bins[int2])
 
     return wave1, wave2
 
@@ -435,6 +420,13 @@ def pixel_range(bins, waverange, mode='round'):
     if wave1 == wave2:
         return 0
 
+    # Range limits may fall within the outer half of the first or the last
+    # pixel. Pad the bins with one virtual center beyond each end, mirroring
+    # the outermost spacing, so that bins[ind - 1] and bins[ind] below always
+    # bracket the limit. This shifts both indices by one.
+    bins = np.concatenate(([2.0 * bins[0] - bins[1]], bins,
+                           [2.0 * bins[-1] - bins[-2]]))
+
     if mode == 'round':
         ind1 = bins.searchsorted(wave1, side='right')
         ind2 = bins.searchsorted(wave2, side='right')
@@ -459,7 +451,8 @@ def pixel_range(bins, waverange, mode='round'):
             # ind2 is only partially included
             ind2 -= 1
 
-        npix = ind2 - ind1
+        # Both limits may fall within the same pixel.
+        npix = max(ind2 - ind1, 0)
 
     elif mode == 'max':
         # for ind1, figure out if pixel ind1-1 is partially included or not.
